@@ -35,6 +35,15 @@ Definition vars_match (ordered : bool) (ms ds : list vinfo) : bool :=
   else (length ms =? length ds)%nat && nodupb (map v_lab ds)
        && forallb (fun d => existsb (vinfo_eqb d) ms) ds.
 
+(* QuadraticModel: no interaction has a REAL end (the hypothesis of C04_qm_failed_op_is_noop, evaluated on every
+   state the history reaches) *)
+Definition nrib (s : state) : bool :=
+  match st_kind s with
+  | Some _ => true
+  | None => forallb (fun t : qterm => negb (is_real (vt_of s (fst (fst t)))) && negb (is_real (vt_of s (snd (fst t)))))
+                    (p_quad (st_poly s))
+  end.
+
 Definition dump_matches (n : nat) (ordered : bool) (s : state) (d : dump) : bool :=
   vars_match ordered (st_vars s) (d_vars d)
   && poly_coeff_eqb n (st_poly s) (obs_poly (d_obs d))
@@ -43,7 +52,7 @@ Definition dump_matches (n : nat) (ordered : bool) (s : state) (d : dump) : bool
   && (num_interactions s =? d_nint d)%nat
   && (num_variables s =? d_nvar d)%nat
   && Bool.eqb (is_linear s) (d_islin d)
-  && wfb s.
+  && wfb s && nrib s.
 
 (* the implementation's own read paths agree with each other *)
 Definition dump_selfconsistent (d : dump) : bool :=
